@@ -528,6 +528,18 @@ class Scalar(Parametrized):
     def array(self):
         return [self.data]
 
+    def subs(self, *args):
+        result = super().subs(*args)
+        if type(self) is Scalar and self.is_mixed:
+            result = Scalar(result.data, is_mixed=True)
+        return result
+
+    def lambdify(self, *symbols, **kwargs):
+        function = super().lambdify(*symbols, **kwargs)
+        if type(self) is Scalar and self.is_mixed:
+            return lambda *xs: Scalar(function(*xs).data, is_mixed=True)
+        return function
+
     def grad(self, var, **params):
         if var not in self.free_symbols:
             return Sum([], self.dom, self.cod)
